@@ -33,6 +33,8 @@ def apply(cl, kind, senders=None):
         cl.partition(a, b)
     elif what == 'heal':
         cl.heal(a, b)
+    elif what == 'glitch':
+        cl.glitch(a, b)
     elif what == 'stall':
         cl.stall(a, b)
     elif what == 'unstall':
@@ -63,7 +65,7 @@ def watch_requests(core, senders):
 
 def run_schedule(src, n=2, rounds=6, closing=10, faults=1, delays=0, configs=('LIST+TIMEOUT',), fences=(False,),
                  failures=('CONTINUE',), kinds=None, fault_from=2, plan_fn=None, rules=None, programs=None,
-                 release_at=None):
+                 release_at=None, eager=(False,)):
     cfg_name = src.pick('config', list(configs))
     cfg = dict(CONFIGS[cfg_name])
     cfg['auto_fence'] = str(src.pick('auto_fence', list(fences)))
@@ -72,6 +74,8 @@ def run_schedule(src, n=2, rounds=6, closing=10, faults=1, delays=0, configs=('L
         cfg['synchro_options'] = cfg['synchro_options'].replace(',TIMEOUT', '').replace('TIMEOUT', 'LIST')
     programs = programs or {i: [('app', 'p1')] for i in range(n)}
     cl = Cluster(n, cfg, programs, rules=rules)
+    if len(eager) > 1 or eager[0]:
+        cl.net.eager = src.pick('proxy_thread_runs_at_once', list(eager))
     senders = []
     for c in cl.cores:
         watch_requests(c, senders)
@@ -140,17 +144,26 @@ def split_brain_plan(n, max_len, late=True):
                 plan.append((0, 0, ('crash', who, None)))
                 plan.append((5, 0, ('restart', who, None)))
         cut = src.pick_int('cut_instance', 0, n - 1)
-        mode = src.pick('separation', ['partition', 'stalled-from', 'stalled-towards'])
-        start = src.pick('partition_round', list(SPLIT_STARTS))
+        mode = src.pick('separation', ['partition', 'stalled-from', 'stalled-towards', 'one-rpc-fails-from',
+                                       'one-rpc-fails-towards'])
+        glitch = mode.startswith('one-rpc')
+        # (a single failing XML-RPC is also placed where the late joiner's handshakes take place)
+        start = src.pick('partition_round', [5, 6, 10] if glitch else list(SPLIT_STARTS))
         pos = src.pick_int('partition_pos', 0, n - 1)
         length = src.pick_int('partition_length', 0, max_len)
         hpos = src.pick_int('heal_pos', 0, n - 1)
+        if glitch:
+            src.assume(length == 1)
+            src.assume(hpos == 0)
         if length == 0:
             src.assume(hpos > pos)
         for other in range(n):
             if other == cut:
                 continue
-            if mode == 'partition':
+            if glitch:
+                a, b = (cut, other) if mode.endswith('from') else (other, cut)
+                plan.append((start, pos, ('glitch', a, b)))
+            elif mode == 'partition':
                 a, b = min(cut, other), max(cut, other)
                 plan.append((start, pos, ('partition', a, b)))
                 plan.append((start + length, hpos, ('heal', a, b)))
@@ -163,6 +176,8 @@ def split_brain_plan(n, max_len, late=True):
 
 
 def separation_length(plan):
+    if any(x[2][0] == 'glitch' for x in plan):
+        return 'one-failing-rpc'
     begin = [x[0] for x in plan if x[2][0] in ('partition', 'stall')]
     end = [x[0] for x in plan if x[2][0] in ('heal', 'unstall')]
     return f"{[x[2][0] for x in plan if x[2][0] in ('partition', 'stall')][0]}-of-{end[0] - begin[0]}-rounds"
